@@ -62,7 +62,12 @@ func (v *vigil) BeginVigil() {
 
 func (v *vigil) CeaseVigil() {
 	atomic.AddInt64(&v.vigils, -1)
+	// Broadcast while holding the waiters' lock: a waiter that has already seen a
+	// non-zero counter but has not yet parked in cond.Wait holds the lock, so the
+	// broadcast cannot slip into that window and be lost.
+	v.mu.Lock()
 	v.cond.Broadcast()
+	v.mu.Unlock()
 }
 
 func (v *vigil) HasActiveVigils() bool {
